@@ -26,7 +26,7 @@ from . import e2_formula as F
 from .core import Unsupported
 from .e1_srcmodel import dotted
 from .e2_eval import AutoEvaluator, DictValue, Unknown, is_unknown, need
-from .sem import unfn, module_consts
+from .sem import unfn, module_consts, and_binop, split_call
 
 NONE = F.sym("None")
 
@@ -131,8 +131,12 @@ class Trace:
         self.undecided = []   # (test node, function name)
         self.seq = 0
         self.returns = {}     # function name -> [value]
+        self.ret_nodes = {}   # function name -> [return statement]
         self.call_values = {} # id(call node) -> value of the (last evaluation of the) call
         self.notes = []
+        self.created = set()  # identities of arrays made by a constructor call (np.zeros, ...)
+        self.opaque = set()   # identities of stored-through locals bound to a value that may be a view of another array of the trace
+        self.forked = []      # (test node, function name, key of the test value): tests the configuration left open, taken one way on this path
 
     def tick(self):
         self.seq += 1
@@ -153,6 +157,9 @@ class Trace:
 # ------------------------------------------------------------------------------------------------ configuration = truth of the tests
 _NEG = {"Is": "IsNot", "IsNot": "Is", "Eq": "NotEq", "NotEq": "Eq", "In": "NotIn", "NotIn": "In", "Lt": "GtE", "GtE": "Lt", "Gt": "LtE", "LtE": "Gt"}
 _SWAP = {"Eq": "Eq", "NotEq": "NotEq", "Lt": "Gt", "Gt": "Lt", "LtE": "GtE", "GtE": "LtE", "Is": "Is", "IsNot": "IsNot"}
+
+
+_SETLIKE_CALLS = {"call:set", "call:frozenset", "call:list", "call:tuple", "call:sorted"}
 
 
 def _literal_like(v):
@@ -215,14 +222,15 @@ class Config:
             r = self.truth(args[0])
             return None if r is None else (not r)
         if name in ("bool:And", "bool:Or"):
-            rs = [self.truth(a) for a in args]
-            if name == "bool:And":
-                if any(r is False for r in rs):
-                    return False
-                return True if all(r is True for r in rs) else None
-            if any(r is True for r in rs):
-                return True
-            return False if all(r is False for r in rs) else None
+            # left to right, as Python evaluates it: an operand behind a deciding one is never looked at (nor taken both ways)
+            stop = name == "bool:Or"
+            rs = []
+            for a in args:
+                r = self.truth(a)
+                if r is stop:
+                    return stop
+                rs.append(r)
+            return (not stop) if all(r is (not stop) for r in rs) else None
         if name.startswith("cmp:") and len(args) == 2:
             op = name[4:]
             a, b = args
@@ -233,6 +241,9 @@ class Config:
                 la, lb = _literal_like(a), _literal_like(b)
                 if la is not None and lb is not None and la != lb:
                     return not pos
+                r = self._find_test(op, a, b)
+                if r is not None:
+                    return r
                 # x == 0 / x != 0 for a quantity whose truthiness is configured (sizes)
                 for x, y in ((a, b), (b, a)):
                     if y.is_const() and y.const_value() == 0 and op in ("Eq", "NotEq"):
@@ -248,7 +259,98 @@ class Config:
                 if op == "LtE" and b.is_const() and b.const_value() == 0 and not a.is_const():
                     r = self.truth(a)
                     return None if r is None else (not r)
+                # an equality the configuration fixes decides the order comparisons between the same two quantities
+                e = self.tab.get(vkey(F.fn("cmp:Eq", a, b)))
+                if e is True:
+                    return op in ("GtE", "LtE")
+                r = self._find_test(op, a, b)
+                if r is not None:
+                    return r
+            if op in ("In", "NotIn"):
+                r = self._member(a, b)
+                if r is not None:
+                    return r if op == "In" else (not r)
+        if name == "call:bool" and len(args) == 1:
+            return self.truth(args[0])
+        if name == "call:.count" and len(args) == 2:
+            return self._member(args[1], args[0])          # s.count(x) as a test: x in s
+        if name in _SETLIKE_CALLS and len(args) == 1:
+            return self.truth(args[0])
         return None
+
+    def _find_test(self, op, a, b):
+        """s.find(x) >= 0, s.find(x) != -1, s.find(x) > -1  (and their negations == -1, < 0): x in s"""
+        ua = unfn(a)
+        if ua is None or ua[0] != "call:.find" or len(ua[1]) != 2 or any(isinstance(z, str) for z in ua[1]) or not b.is_const():
+            return None
+        c = b.const_value()
+        pos = {("GtE", 0): True, ("Gt", -1): True, ("NotEq", -1): True, ("IsNot", -1): True, ("Lt", 0): False, ("Eq", -1): False, ("LtE", -1): False}.get((op, c))
+        if pos is None:
+            return None
+        r = self._member(ua[1][1], ua[1][0])
+        return None if r is None else (r if pos else not r)
+
+    # ---- membership: `x in S` by the structure of the *value* S
+    def _member(self, x, s, depth=0):
+        """x in s, for s built from configured containers by set algebra: set(c), c1 - c2, c1 | c2, c1 & c2, .difference / .union /
+        .intersection, a literal string / tuple; decided from the memberships `x in c` the configuration knows (None: not decided)"""
+        if depth > 6 or is_unknown(s) or isinstance(s, (tuple, DictValue)):
+            return None
+        r = self.tab.get(vkey(F.fn("cmp:In", x, s)))
+        if r is not None:
+            return r
+        ls, lx = _literal_like(s), _literal_like(x)
+        if ls is not None and ls[0] == "s" and ls[1][:1] in "'\"" and lx is not None and lx[0] == "s" and lx[1][:1] in "'\"":
+            try:
+                return ast.literal_eval(lx[1]) in ast.literal_eval(ls[1])
+            except Exception:  # noqa
+                return None
+        u = unfn(s)
+        if u is not None:
+            nm, args = u
+            vals = [a for a in args if not isinstance(a, str)]
+            if nm in _SETLIKE_CALLS and len(vals) == 1:
+                return self._member(x, vals[0], depth + 1)
+            if nm == "tuple":
+                rs = [self.truth(F.fn("cmp:Eq", x, it)) for it in vals]
+                if any(r is True for r in rs):
+                    return True
+                return False if all(r is False for r in rs) else None
+            if nm in ("mask:BitOr", "call:.union") and len(vals) >= 2:
+                rs = [self._member(x, v, depth + 1) for v in vals]
+                if any(r is True for r in rs):
+                    return True
+                return False if all(r is False for r in rs) else None
+            if nm in ("mask:BitAnd", "call:.intersection") and len(vals) >= 2:
+                rs = [self._member(x, v, depth + 1) for v in vals]
+                if any(r is False for r in rs):
+                    return False
+                return True if all(r is True for r in rs) else None
+            if nm == "call:.difference" and len(vals) >= 2:
+                r0 = self._member(x, vals[0], depth + 1)
+                rs = [self._member(x, v, depth + 1) for v in vals[1:]]
+                if r0 is False or any(r is True for r in rs):
+                    return False
+                return True if r0 is True and all(r is False for r in rs) else None
+            return None
+        # a difference of sets A - B - ...: a sum of container atoms, one with coefficient +1, the others -1
+        try:
+            if not s.d.is_const() or s.d.const_value() != 1 or len(s.n.t) < 2:
+                return None
+            pos, neg = [], []
+            for m, c in s.n.t.items():
+                if len(m) != 1 or m[0][1] != 1 or c not in (1, -1):
+                    return None
+                (pos if c == 1 else neg).append(F.Rat(F.Poly.atom(m[0][0])))
+        except Exception:  # noqa
+            return None
+        if len(pos) != 1:
+            return None
+        r0 = self._member(x, pos[0], depth + 1)
+        rs = [self._member(x, v, depth + 1) for v in neg]
+        if r0 is False or any(r is True for r in rs):
+            return False
+        return True if r0 is True and all(r is False for r in rs) else None
 
 
 # ------------------------------------------------------------------------------------------------ the evaluator
@@ -270,6 +372,10 @@ _SOLVES = {"la.solve": "solve", "np.linalg.solve": "solve", "scipy.linalg.solve"
 _PRODUCTS = {"np.matmul", "np.dot", "np.multiply", "np.outer", "numpy.matmul", "numpy.dot", "np.inner"}
 _ARRAY_CTORS = {"np.zeros", "np.empty", "np.zeros_like", "np.empty_like", "numpy.zeros", "numpy.empty"}
 _ONE = {"np.eye", "np.identity", "np.ones", "np.ones_like"}
+_CMP_UFUNCS = {"np.not_equal": ast.NotEq, "np.equal": ast.Eq, "np.greater": ast.Gt, "np.less": ast.Lt, "np.greater_equal": ast.GtE,
+               "np.less_equal": ast.LtE, "numpy.not_equal": ast.NotEq, "numpy.equal": ast.Eq, "operator.ne": ast.NotEq, "operator.eq": ast.Eq}
+_STACKS = {"np.column_stack", "np.stack", "np.hstack", "np.vstack", "np.array", "np.asarray", "np.concatenate", "numpy.column_stack"}
+_NAMESPACES = ("SimpleNamespace", "types.SimpleNamespace", "Namespace", "argparse.Namespace")
 
 
 def _consts_of(ctx, rel):
@@ -290,7 +396,9 @@ class PathEval(AutoEvaluator):
         self.depth = depth
         self.stack = tuple(stack) + (fn,)
         self.alias = {}
+        self.views = {}       # local name -> value, for a name that is stored through but bound to a field of another object (`resp = sol.a`)
         self.erase_T = opts.erase_T
+        self.binop_hook = self._binop
         self._cont = False
         self._brk = False
         mod = getattr(fn, "_vmod", None)
@@ -343,6 +451,38 @@ class PathEval(AutoEvaluator):
             return [F.sym(repr(ch)) for ch in node.value]
         if isinstance(node, (ast.Tuple, ast.List)):
             return [self.ev(e) for e in node.elts]
+        if isinstance(node, ast.Call) and dotted(node.func) == "zip" and node.args and not node.keywords:
+            cols = [self._literal_items(a) for a in node.args]
+            if any(c is None for c in cols):
+                return None
+            return [tuple(c[k] for c in cols) for k in range(min(len(c) for c in cols))]
+        if isinstance(node, ast.Call) and dotted(node.func) == "enumerate" and 1 <= len(node.args) <= 2 and not node.keywords:
+            its = self._literal_items(node.args[0])
+            st0 = self.ev(node.args[1]) if len(node.args) == 2 else F.const(0)
+            if its is None or is_unknown(st0) or isinstance(st0, (tuple, DictValue)) or not st0.is_const():
+                return None
+            return [(F.const(st0.const_value() + k), x) for k, x in enumerate(its)]
+        if isinstance(node, ast.Call) and dotted(node.func) in ("reversed", "list", "tuple", "sorted") and len(node.args) == 1 and not node.keywords:
+            its = self._literal_items(node.args[0])
+            if its is None or dotted(node.func) == "sorted":
+                return None
+            return its[::-1] if dotted(node.func) == "reversed" else its
+        if isinstance(node, ast.Call) and isinstance(node.func, ast.Attribute) and node.func.attr in ("items", "values", "keys") and not node.args:
+            dv = self.ev(node.func.value)
+            if isinstance(dv, DictValue) and all(isinstance(k, (str, int)) for k in dv.d):
+                ks = [F.sym(repr(k)) if isinstance(k, str) else F.const(k) for k in dv.d]
+                vs = list(dv.d.values())
+                return {"items": [(k, v) for k, v in zip(ks, vs)], "values": vs, "keys": ks}[node.func.attr]
+            return None
+        if isinstance(node, ast.Call) and dotted(node.func) == "range" and 1 <= len(node.args) <= 2 and not node.keywords:
+            # a counted loop with constant bounds: its iterations one by one
+            bs = [self.ev(a) for a in node.args]
+            if all(not is_unknown(b) and not isinstance(b, (tuple, DictValue)) and b.is_const() and b.const_value().denominator == 1 for b in bs):
+                ks = [int(b.const_value()) for b in bs]
+                lo, hi = (0, ks[0]) if len(ks) == 1 else ks
+                if 0 <= hi - lo <= 8:
+                    return [F.const(k) for k in range(lo, hi)]
+            return None
         v = self.ev(node)
         if isinstance(v, tuple):
             return list(v)
@@ -353,6 +493,34 @@ class PathEval(AutoEvaluator):
             except Exception:  # noqa
                 return None
         return None
+
+    # ---- arithmetic
+    def _fresh_value(self, v):
+        """an operand that is exactly an array created by np.zeros & co. and not stored into so far is the value it was created with"""
+        s = sym_name(v) if not isinstance(v, tuple) else None
+        if s is not None and s in self.trace.init and s in self.trace.created and not self.trace.cells_of(s):
+            i = self.trace.init[s]
+            if i is not None and not is_unknown(i) and not isinstance(i, (tuple, DictValue)):
+                return i
+        return v
+
+    def _binop(self, node, a, b, ev):
+        if isinstance(node.op, (ast.BitAnd, ast.BitOr)):
+            return and_binop(node, a, b, ev)          # masks / sets: commutative opaque applications
+        a2, b2 = self._fresh_value(a), self._fresh_value(b)
+        if a2 is a and b2 is b:
+            return NotImplemented
+        a2, b2 = need(a2), need(b2)
+        op = node.op
+        if isinstance(op, ast.Add):
+            return a2 + b2
+        if isinstance(op, ast.Sub):
+            return a2 - b2
+        if isinstance(op, (ast.Mult, ast.MatMult)):
+            return a2 * b2
+        if isinstance(op, ast.Div) and not b2.is_zero():
+            return a2 / b2
+        return NotImplemented
 
     # ---- indices
     def _index_value(self, sl):
@@ -405,6 +573,8 @@ class PathEval(AutoEvaluator):
 
     # ---- expressions
     def _ev(self, node):
+        if isinstance(node, ast.Name) and node.id in self.views:
+            return self.views[node.id]
         if isinstance(node, ast.Name) and node.id in self.buffers:
             return F.sym(self._ident(node.id))
         if isinstance(node, ast.Subscript):
@@ -450,6 +620,18 @@ class PathEval(AutoEvaluator):
                 s_ = sym_name(b)
                 if s_ is not None and s_ not in self.trace.idents and s_ != "None" and s_[:1] not in "'\"":
                     return F.sym(f"{s_}.{node.attr}")
+                sc = split_call(b) if not is_unknown(b) and not isinstance(b, (tuple, DictValue)) else None
+                if sc is not None and sc[0] in _NAMESPACES and node.attr in sc[2]:
+                    return sc[2][node.attr]        # a field of a namespace built here: the value it was built with
+        if isinstance(node, ast.Compare) and len(node.ops) == 1 and isinstance(node.ops[0], (ast.In, ast.NotIn)):
+            c = self.ev(node.comparators[0])
+            if isinstance(c, tuple) and c and not any(is_unknown(x) or isinstance(x, (tuple, DictValue)) for x in c):
+                # membership in a literal tuple / list: a value of its own (decided item by item by the configuration)
+                a = self.ev(node.left)
+                if is_unknown(a) or isinstance(a, (tuple, DictValue)):
+                    return a if is_unknown(a) else Unknown("membership of a tuple")
+                r = F.fn("cmp:In", need(a), F.fn("tuple", *[need(x) for x in c]))
+                return r if isinstance(node.ops[0], ast.In) else F.fn("not", r)
         if isinstance(node, ast.DictComp) and len(node.generators) == 1 and not node.generators[0].ifs:
             g = node.generators[0]
             items = self._literal_items(g.iter)
@@ -471,24 +653,31 @@ class PathEval(AutoEvaluator):
                     else:
                         self.env[k] = v
             return DictValue(out)
-        if isinstance(node, (ast.ListComp, ast.GeneratorExp)) and len(node.generators) == 1 and not node.generators[0].ifs:
+        if isinstance(node, (ast.ListComp, ast.GeneratorExp)) and len(node.generators) == 1:
             g = node.generators[0]
             saved = {n.id: self.env.get(n.id, NotImplemented) for n in ast.walk(g.target) if isinstance(n, ast.Name)}
             try:
-                items = self._literal_items(g.iter) if isinstance(g.iter, (ast.Tuple, ast.List)) else None
-                if items is None:
+                items = self._literal_items(g.iter) if _literal_iter(g.iter) else None
+                if items is None and not (isinstance(g.iter, ast.Call) and dotted(g.iter.func) in ("range", "enumerate", "zip")):
                     itv = self.ev(g.iter)
                     if isinstance(itv, tuple):
                         items = list(itv)
+                    elif is_unknown(itv):
+                        return itv
                 if items is not None:
                     out = []
                     for it in items:
                         self._assign(g.target, it, node)
-                        out.append(self.ev(node.elt))
+                        keep = [self.decide(c) for c in g.ifs]
+                        if any(k is None for k in keep):
+                            return Unknown(f"undecided filter of a comprehension {ast.unparse(g.ifs[0])}")
+                        if all(keep):
+                            out.append(self.ev(node.elt))
                     return tuple(out)
-                if is_unknown(itv):
-                    return itv
-                self._assign(g.target, self._element(itv, None), node)
+                if g.ifs:
+                    return Unknown("filtered comprehension over a generic iterable")
+                if not self._bind_generic(g.target, g.iter, node):
+                    return Unknown(f"comprehension target {ast.unparse(g.target)}")
                 return self.ev(node.elt)
             finally:
                 for k, v in saved.items():
@@ -520,6 +709,12 @@ class PathEval(AutoEvaluator):
             s = sym_name(self.env[node.func.id])
             if s is not None and s not in self.trace.idents:
                 return s        # a local alias of a function: `solve = la.solve`
+        if d is None and isinstance(node.func, (ast.IfExp, ast.Subscript, ast.NamedExpr, ast.Call)):
+            # the callee is computed: `(self.f if c else self.g)(...)`, `table[key](...)` - the function its value names
+            fv = self.ev(node.func)
+            s = sym_name(fv) if not isinstance(fv, tuple) else None
+            if s is not None and s not in self.trace.idents and s != "None" and s[:1] not in "'\"":
+                return s
         return d
 
     def _resolve(self, name):
@@ -532,7 +727,19 @@ class PathEval(AutoEvaluator):
                     return f
             return None
         if "." not in name and self.rel:
-            return self.ctx.src.mod(self.rel).funcs.get(name)
+            m = self.ctx.src.mod(self.rel)
+            f = m.funcs.get(name)
+            if f is None and name.startswith("_") and not name.startswith("__"):
+                f = _imported_helper(self.ctx, m, name)     # a private helper that lives in a sibling module
+            return f
+        if name.count(".") == 1:
+            # a static method called through the class: `SolveUnc._rb_integrate(...)`
+            cn, mn = name.split(".")
+            if any(cn == c for _, c in self.opts.classes):
+                for rel, cls in self.opts.classes:
+                    f = self.ctx.src.mod(rel).funcs.get(f"{cls}.{mn}")
+                    if f is not None:
+                        return f if any(isinstance(d, ast.Name) and d.id == "staticmethod" for d in f.decorator_list) else None
         return None
 
     def _call(self, node):
@@ -574,6 +781,59 @@ class PathEval(AutoEvaluator):
             return v if is_unknown(v) or isinstance(v, tuple) else need(v) * need(v)
         if name in _ONE:
             return F.const(1)
+        if name in _ARRAY_CTORS:
+            # a new array: one identity, whoever fills it later; named after the local it is bound to first (`_assign`)
+            self._record(name, node)
+            i = self.trace.fresh("<array>")
+            self.trace.init[i] = F.const(0)
+            self.trace.created.add(i)
+            return F.sym(i)
+        if name in _STACKS and len(args) >= 1:
+            sv = self.ev(args[0])
+            if not isinstance(sv, (tuple, DictValue)) and not is_unknown(sv) and isinstance(args[0], (ast.ListComp, ast.GeneratorExp, ast.Name)):
+                return sv                      # the columns / entries of a list held as its generic entry: the array with that generic column
+        if name in ("tuple", "list") and len(args) == 1 and not node.keywords:
+            sv = self.ev(args[0])
+            if isinstance(sv, tuple):
+                return sv                      # a sequence the evaluator holds item by item
+        if isinstance(node.func, ast.Attribute) and node.func.attr == "append" and len(args) == 1 and not node.keywords \
+                and isinstance(node.func.value, ast.Name) and isinstance(self.env.get(node.func.value.id), tuple) \
+                and node.func.value.id not in self.buffers and node.func.value.id not in self.pinned:
+            # a list built by appending: item by item (in a generic loop: its generic entry)
+            self.env[node.func.value.id] = self.env[node.func.value.id] + (self.ev(args[0]),)
+            return NONE
+        cp = None
+        if isinstance(node.func, ast.Attribute) and node.func.attr == "copy" and not args and name not in ("np.copy", "numpy.copy"):
+            cp = node.func.value
+        elif name in ("np.copy", "numpy.copy", "np.array", "numpy.array") and len(args) == 1:
+            cp = args[0]
+        if cp is not None:
+            src = self.ev(cp)
+            sn = sym_name(src) if not isinstance(src, (tuple, DictValue)) else None
+            if sn is not None and sn in self.trace.idents:
+                # a copy of an array of the trace: a new array that starts with what the original holds now
+                i = self.trace.fresh("<array>")
+                self.trace.init[i] = self.trace.init[sn] if sn in self.trace.init and not self.trace.cells_of(sn) else F.sym(sn)
+                self.trace.created.add(i)
+                return F.sym(i)
+        if name in _CMP_UFUNCS and len(args) == 2 and not node.keywords:
+            return self._ev(ast.copy_location(ast.Compare(left=args[0], ops=[_CMP_UFUNCS[name]()], comparators=[args[1]]), node))
+        if name in ("np.logical_not", "numpy.logical_not") and len(args) == 1 and not node.keywords:
+            return self._ev(ast.copy_location(ast.UnaryOp(op=ast.Invert(), operand=args[0]), node))
+        if name in ("np.logical_and", "np.logical_or", "np.bitwise_and", "np.bitwise_or") and len(args) == 2 and not node.keywords:
+            op = ast.BitAnd() if name.endswith("and") else ast.BitOr()
+            return self._ev(ast.copy_location(ast.BinOp(left=args[0], op=op, right=args[1]), node))
+        if name == "setattr" and len(args) == 3 and not node.keywords:
+            sname = sym_name(self.ev(args[1]))
+            if sname is not None and len(sname) >= 2 and sname[0] in "'\"":
+                try:
+                    attr = ast.literal_eval(sname)
+                except Exception:  # noqa
+                    attr = None
+                if isinstance(attr, str) and attr.isidentifier():
+                    v = self.ev(args[2])
+                    self._assign(ast.copy_location(ast.Attribute(value=args[0], attr=attr, ctx=ast.Store()), node), v, node)
+                    return NONE
         if name == "slice" and 1 <= len(args) <= 3 and not node.keywords:
             vs = [self.ev(a) for a in args]
             if any(is_unknown(v) or isinstance(v, tuple) for v in vs):
@@ -636,7 +896,14 @@ class PathEval(AutoEvaluator):
             parts.append(F.fn("star", need(v)) if isinstance(a, ast.Starred) else need(v))
         for k in node.keywords:
             v = self.ev(k.value)
-            if is_unknown(v) or isinstance(v, tuple):
+            if k.arg is None and isinstance(v, DictValue) and all(isinstance(x, str) for x in v.d):
+                # **{literal keys}: the keywords themselves
+                for kk, vv in v.d.items():
+                    if is_unknown(vv) or isinstance(vv, (tuple, DictValue)):
+                        return Unknown(f"keyword {kk}")
+                    parts.append(F.fn("kw:" + kk, need(vv)))
+                continue
+            if is_unknown(v) or isinstance(v, (tuple, DictValue)):
                 return Unknown(f"keyword {k.arg}")
             parts.append(F.fn("kw:" + (k.arg or "**"), need(v)))
         return F.fn("call:" + name, *parts)
@@ -720,14 +987,19 @@ class PathEval(AutoEvaluator):
             v = self.ev(st.value) if st.value is not None else None
             self.returns.append((v, st))
             self.trace.returns.setdefault(self.fn.name, []).append(v)
+            self.trace.ret_nodes.setdefault(self.fn.name, []).append(st)
             self.done = True
             return
         if isinstance(st, ast.If):
             if _only_raises(st.body) and _only_raises(st.orelse) and not any(isinstance(x, ast.NamedExpr) for x in ast.walk(st.test)):
                 return          # an argument check: no effect on the values whichever way the test goes
+            n0 = len(getattr(self.config, "taken", ()))
             c = self.decide(st.test)
             if c is None:
                 self.trace.undecided.append((st.test, self.fn.name))
+            else:
+                for tv, _ in getattr(self.config, "taken", ())[n0:]:
+                    self.trace.forked.append((st.test, self.fn.name, vkey(tv)))
             return super().stmt(st)
         if isinstance(st, ast.For) and not st.orelse:
             return self._for(st)
@@ -741,7 +1013,7 @@ class PathEval(AutoEvaluator):
     def _for(self, st):
         items = None
         it = st.iter
-        if isinstance(it, (ast.Tuple, ast.List)):
+        if _literal_iter(it):
             items = self._literal_items(it)
         elif not (isinstance(it, ast.Call) and dotted(it.func) in ("range", "enumerate", "zip")):
             v = self.ev(it)
@@ -758,6 +1030,14 @@ class PathEval(AutoEvaluator):
                     break
             return
         # generic iteration
+        if not self._bind_generic(st.target, it, st):
+            return super().stmt(st)
+        self._cont = self._brk = False
+        self.run(st.body)
+        self._cont = self._brk = False
+
+    def _bind_generic(self, target, it, st):
+        """bind the target of a loop / comprehension for one generic iteration (the counter is a loop symbol); False: not lowered"""
         def counter(t):
             nm = self.trace.fresh(t.id if isinstance(t, ast.Name) else "<k>")
             self.trace.loop_syms.add(nm)
@@ -765,21 +1045,24 @@ class PathEval(AutoEvaluator):
         if isinstance(it, ast.Call) and dotted(it.func) == "range":
             for a in it.args:
                 self.ev(a)
-            if isinstance(st.target, ast.Name):
-                self._assign(st.target, counter(st.target), st)
-            else:
-                return super().stmt(st)
-        elif isinstance(it, ast.Call) and dotted(it.func) == "enumerate" and len(it.args) == 1 and isinstance(st.target, (ast.Tuple, ast.List)) \
-                and len(st.target.elts) == 2 and isinstance(st.target.elts[0], ast.Name):
-            c = counter(st.target.elts[0])
-            self._assign(st.target.elts[0], c, st)
-            self._assign(st.target.elts[1], self._element(self.ev(it.args[0]), c), st)
+            if not isinstance(target, ast.Name):
+                return False
+            self._assign(target, counter(target), st)
+        elif isinstance(it, ast.Call) and dotted(it.func) == "enumerate" and len(it.args) == 1 and isinstance(target, (ast.Tuple, ast.List)) \
+                and len(target.elts) == 2 and isinstance(target.elts[0], ast.Name):
+            c = counter(target.elts[0])
+            self._assign(target.elts[0], c, st)
+            self._assign(target.elts[1], self._element(self.ev(it.args[0]), c), st)
+        elif isinstance(it, ast.Call) and dotted(it.func) == "zip" and it.args and not it.keywords and isinstance(target, (ast.Tuple, ast.List)) \
+                and len(target.elts) == len(it.args):
+            # the k-th items of every sequence: one counter
+            c = counter(ast.Name(id="<k>"))
+            for t, a in zip(target.elts, it.args):
+                self._assign(t, self._element(self.ev(a), c), st)
         else:
             itv = self.ev(it)
-            self._assign(st.target, self._element(itv, None), st)
-        self._cont = self._brk = False
-        self.run(st.body)
-        self._cont = self._brk = False
+            self._assign(target, self._element(itv, None), st)
+        return True
 
     def _while(self, st):
         """a counted loop `while k < n: ...; k += 1`: evaluated once for a generic iteration with the counter a loop symbol"""
@@ -806,7 +1089,7 @@ class PathEval(AutoEvaluator):
         if isinstance(target, ast.Subscript):
             base = target.value
             ident = None
-            if isinstance(base, ast.Name) and base.id in self.buffers:
+            if isinstance(base, ast.Name) and base.id in self.buffers and base.id not in self.views:
                 ident = self._ident(base.id)
             else:
                 bv = self.ev(base)
@@ -821,8 +1104,19 @@ class PathEval(AutoEvaluator):
                 ix = Unknown(str(e))
             self.trace.cells.append((ident, ix, v, st, self.trace.tick()))
             return
+        if isinstance(target, ast.Name):
+            s = sym_name(v) if v is not None and not isinstance(v, tuple) else None
+            if s is not None and s.startswith("<array>") and s in self.trace.created and s in self.trace.idents and not self.trace.cells_of(s) \
+                    and not any(x == s for x in self.alias.values()):
+                # the first name an anonymous new array is bound to names its identity
+                i = self.trace.fresh(target.id)
+                self.trace.init[i] = self.trace.init.pop(s)
+                self.trace.idents.discard(s)
+                self.trace.created.discard(s)
+                self.trace.created.add(i)
+                v = F.sym(i)
         if isinstance(target, ast.Name) and isinstance(st, ast.Assign) and _creates_array(st.value) and any(t is target for t in st.targets):
-            # a new array: one identity, whoever fills it later (this function, or a helper it is handed to)
+            # a new list `[x] * n`: one identity, whoever fills it later (this function, or a helper it is handed to)
             i = self.trace.fresh(target.id)
             self.trace.init[i] = v
             if target.id in self.buffers:
@@ -831,6 +1125,13 @@ class PathEval(AutoEvaluator):
                 self.env[target.id] = F.sym(i)
             return
         if isinstance(target, ast.Name) and target.id in self.buffers:
+            self.views.pop(target.id, None)
+            u = unfn(v) if v is not None and not is_unknown(v) and not isinstance(v, (tuple, DictValue)) else None
+            if u is not None and u[0].startswith("attr:"):
+                # bound to a field of another object: the name is that field (no array of its own)
+                self.views[target.id] = v
+                self.alias.pop(target.id, None)
+                return
             s = sym_name(v)
             if s is not None and s in self.trace.idents:
                 self.alias[target.id] = s
@@ -838,6 +1139,8 @@ class PathEval(AutoEvaluator):
                 i = self.trace.fresh(target.id)
                 self.trace.init[i] = v
                 self.alias[target.id] = i
+                if v is None or is_unknown(v) or isinstance(v, DictValue) or (not isinstance(v, tuple) and _may_alias(v, self.trace)):
+                    self.trace.opaque.add(i)       # bound to something that may be (a view of) an array of the trace
             return
         if isinstance(target, (ast.Tuple, ast.List)) and not isinstance(v, tuple) and not is_unknown(v) and not isinstance(v, DictValue):
             # unpacking an opaque sequence value: its items by position
@@ -863,10 +1166,57 @@ class PathEval(AutoEvaluator):
             return
 
 
-def _creates_array(node):
-    """np.zeros(...) and friends, `[x] * n`: a new mutable container that is filled later"""
-    if isinstance(node, ast.Call) and dotted(node.func) in _ARRAY_CTORS:
+def _imported_helper(ctx, mod, name):
+    """the definition of `name` when the module imports it from a sibling module of its package (`from ._utilities import _helper`)"""
+    import os
+    for st in mod.tree.body:
+        if not isinstance(st, ast.ImportFrom) or not st.module:
+            continue
+        for al in st.names:
+            if (al.asname or al.name) != name:
+                continue
+            if st.level == 1:
+                rel = os.path.join(os.path.dirname(mod.rel), *st.module.split(".")) + ".py"
+            elif st.level == 0 and st.module.startswith("pyyeti."):
+                rel = os.path.join(*st.module.split(".")) + ".py"
+            else:
+                return None
+            try:
+                return ctx.src.mod(rel).funcs.get(al.name)
+            except Exception:  # noqa
+                return None
+    return None
+
+
+def _may_alias(v, trace):
+    """a value that is neither a number nor a formula over plain symbols may be a view of an array of the trace when one occurs in it:
+    idx(d, rows), an opaque call that was handed d, ...  (a store through such a local cannot be attributed to an array)"""
+    if sym_name(v) is not None:
+        return False
+    found = []
+
+    def f(kind, name, args):
+        if kind == "s" and name in trace.idents:
+            found.append(name)
+        return NotImplemented
+    try:
+        rewrite(v, f)
+    except Unsupported:
         return True
+    return bool(found)
+
+
+def _literal_iter(node):
+    """an iterable whose items may be readable from the source: a display, a string, a name, or range / zip / enumerate / reversed / d.items() of such"""
+    if isinstance(node, (ast.Tuple, ast.List, ast.Constant, ast.Name)):
+        return True
+    if isinstance(node, ast.Call) and dotted(node.func) in ("range", "zip", "enumerate", "reversed", "list", "tuple"):
+        return True
+    return isinstance(node, ast.Call) and isinstance(node.func, ast.Attribute) and node.func.attr in ("items", "values", "keys") and not node.args
+
+
+def _creates_array(node):
+    """`[x] * n`: a new mutable container that is filled later (np.zeros(...) and friends get their identity where they are evaluated)"""
     if isinstance(node, ast.BinOp) and isinstance(node.op, ast.Mult) and (isinstance(node.left, ast.List) or isinstance(node.right, ast.List)):
         return True
     return False
@@ -956,6 +1306,21 @@ class _ForkConfig(Config):
         # the negated / swapped spellings of the same comparison follow
         self._put(v, d)
         return d
+
+
+def explore(ctx, fn, table, opts, limit=32, cfg_cls=None, env=None):
+    """like `enumerate_paths`, as a list of (decisions, trace, evaluator); a configuration that decides every test gives one path"""
+    out = []
+    work = [[]]
+    while work:
+        prefix = work.pop()
+        if len(out) >= limit:
+            raise Unsupported(f"more than {limit} combinations of the tests the configuration leaves open in {fn.name}")
+        cfg = (cfg_cls or _ForkConfig)(table, prefix, work)
+        ev = PathEval(fn, ctx, cfg, opts, env=env)
+        ev.run(fn.body)
+        out.append((list(cfg.taken), ev.trace, ev))
+    return out
 
 
 def enumerate_paths(ctx, fn, table, opts, limit=64, cfg_cls=None, env=None):
